@@ -13,7 +13,7 @@
   stored matrix: row `i` is the scatter of the entries at positions
   `indptr[i] ..< indptr[i+1]`; `slice D r0 r1` — Python `D[r0:r1]`.
 -/
-import CTM.Lemmas.SparseDisjoint
+import CTM.Lemmas.SparseFlat
 
 namespace CTM.C05
 open CTM.Chunking CTM.Sparse
@@ -137,6 +137,38 @@ theorem iter_exact_csc {α} (zero : α) (M : Mat α) (nRows nCols cs : Nat) (B :
 
 example : cscIter 0 M0 3 3 2 ⟨1, 1, 1⟩
     = .ok [([[1, 0, 4], [0, 3, 0]], 0, 2), ([[2, 0, 5]], 2, 3)] := rfl
+
+/-- *"all memory budgets down to the enforced minimum"*: for the budget the
+code derives from **any** `max_gb` (also 0 or negative) and any dtypes — chunk
+sizes never below the enforced minimum of 100 — and with the code's flat
+`next_idx` / buffer addressing of the fill pass (`C13.transpose_flat`), the CSC
+iterator yields the rows of the stored matrix. -/
+theorem iter_exact_csc_any_max_gb {α} (zero : α) (M : Mat α) (nRows nCols cs : Nat)
+    (countGb loadGb elGb : Rat) (dataBytes indptrBytes indicesBytes : Nat) (hcs : 1 ≤ cs)
+    (w : WFptr M.indptr nCols M.indices.length) (hlen : M.data.length = M.indices.length)
+    (hr : ∀ x ∈ M.indices, x < nRows) :
+    (transposeOnDiskFlat zero M nRows none
+        (Budget.of countGb loadGb elGb dataBytes indptrBytes indicesBytes)
+      >>= fun csr => csrIter zero csr nRows nCols cs)
+      = .ok ((chunks nRows cs).map fun p =>
+          (slice (transposeDense zero (toDense zero M nCols nRows) nRows) p.1 p.2, p.1, p.2)) := by
+  have hlo : 1 ≤ (Budget.of countGb loadGb elGb dataBytes indptrBytes indicesBytes).lo := by
+    unfold Budget.of; exact Nat.le_trans (by decide) (Nat.le_max_left _ _)
+  have hc : 1 ≤ (Budget.of countGb loadGb elGb dataBytes indptrBytes indicesBytes).loCount := by
+    unfold Budget.of; exact Nat.le_trans (by decide) (Nat.le_max_left _ _)
+  rw [transposeOnDiskFlat_eq zero M nRows none _ hlo hc hlen hr]
+  exact cscIter_ok zero M nRows nCols cs _ hcs hlo hc w hlen hr
+
+example : 100 ≤ (Budget.of 0 0 0 8 4 4).lo := Nat.le_max_left _ _
+
+/-- a column index outside the matrix is an `IndexError` of `_csr_to_dense`,
+never silently dropped: the model keeps the raise site. -/
+theorem get_chunk_rejects_bad_column {α} (zero : α) (M : Mat α) (nRows nCols : Nat)
+    (x : Nat) (hx : x ∈ usedCols M) (hbig : nCols ≤ x) :
+    csrToDense zero M nRows nCols = .error .indexOutOfRange :=
+  csrToDense_rejects zero M nRows nCols x hx hbig
+
+example : csrToDense 0 (⟨[0, 1], [5], [7]⟩ : Mat Nat) 1 3 = .error .indexOutOfRange := rfl
 
 /-- **`encoding_indep`** — *"whatever the encoding"*: if a CSR encoding `R`, a
 CSC encoding `C` and a dense array `D` store the same `nRows × nCols` matrix,
